@@ -528,3 +528,67 @@ def run_b14(chk, repo):
                                           'term with one is dropped from the generated sum')
     if n == 0:
         raise AnalysisError('B14: no partition loop found')
+
+
+def run_b15(chk, repo):
+    from sa.cfg import CFG
+    B15 = chk.rule('B15', 'the "statements unchanged" shortcut of update_statements is taken only if the THETA/ETA/EPS numbering is '
+                          'unchanged too; the numbering comparison is made before the old_* snapshots are overwritten', floor=3)
+    um = repo.module(f'{NM}.update')
+    f = um.functions.get('update_statements')
+    mm = repo.module(f'{NM}.model')
+    mcls = mm.classes.get('Model')
+    us = mcls.methods.get('update_source') if mcls else None
+    if f is None or us is None:
+        raise AnalysisError('update_statements / Model.update_source not found')
+    old_p, new_p = f.params[1], f.params[2]
+    guard = None
+    for n in walk_no_nested(f.node):
+        if isinstance(n, ast.If) and any(isinstance(r, ast.Return) for r in n.body):
+            nm = {x.id for x in ast.walk(n.test) if isinstance(x, ast.Name)}
+            if {old_p, new_p} <= nm:
+                guard = n
+                break
+    if guard is None:
+        chk.instance(B15, 'update_statements has no shortcut for unchanged statements')
+        return
+    extra = ({x.id for x in ast.walk(guard.test) if isinstance(x, ast.Name)} & set(f.all_params)) - {old_p, new_p, f.params[0]}
+    chk.instance(B15, f'shortcut `if {unparse(guard.test)[:80]}` also depends on parameter(s) {sorted(extra)}')
+    if not extra:
+        chk.violation(B15, um.rel, 'update_statements', f'if {unparse(guard.test)}: return',
+                      'unchanged statements are left as they are although a theta/eta/epsilon before the ones they use may have '
+                      'been removed or added: the code keeps stale THETA(n)/ETA(n)', line=guard.lineno,
+                      witness='Y = THETA(1) + THETA(3)*TIME with an unused THETA(2), then remove_unused_parameters_and_rvs: two '
+                              '$THETA records remain and the code still says THETA(3)')
+        return
+    flag = sorted(extra)[0]
+    idx = f.all_params.index(flag)
+    cfg = CFG(us.node)
+    calls = [(n, c) for n in cfg.nodes.values() if n.ast is not None and n.kind in ('stmt', 'return')
+             for c in ast.walk(n.ast) if isinstance(c, ast.Call) and dotted(c.func) == 'update_statements']
+    resets = {n.id for n in cfg.nodes.values() if n.ast is not None and n.kind == 'stmt'
+              and any(isinstance(c, ast.Call) and any(k.arg in ('old_parameters', 'old_random_variables') for k in c.keywords)
+                      for c in ast.walk(n.ast))}
+    first = min(calls, key=lambda t: t[0].line) if calls else None
+    if first is None or not resets:
+        raise AnalysisError('B15: call of update_statements / reset of old_parameters not found in update_source')
+    node, call = first
+    arg = call.args[idx] if len(call.args) > idx else next((k.value for k in call.keywords if k.arg == flag), None)
+    chk.instance(B15, f'update_source passes {unparse(arg) if arg is not None else None} as `{flag}`')
+    if arg is None or not isinstance(arg, ast.Name):
+        chk.violation(B15, mm.rel, us.qualname, unparse(call)[:100],
+                      f'the numbering flag `{flag}` is not passed: the shortcut is always taken', line=call.lineno,
+                      witness='remove an unused theta: stale THETA(n) in the code')
+        return
+    defs = [n for n in cfg.nodes.values() if n.kind == 'stmt' and isinstance(n.ast, ast.Assign)
+            and any(isinstance(t, ast.Name) and t.id == arg.id for t in n.ast.targets)]
+    ok_src = all('old_parameters' in unparse(d.ast.value) and 'old_random_variables' in unparse(d.ast.value) for d in defs) and defs
+    before = all(not any(d.id in cfg.reachable(r) for r in resets) for d in defs)
+    chk.instance(B15, f'`{arg.id}` compares old and new parameters and random variables: {bool(ok_src)}; computed before the '
+                      f'old_* snapshots are overwritten: {before}')
+    if not ok_src or not before:
+        chk.violation(B15, mm.rel, us.qualname, f'{arg.id} = {unparse(defs[0].ast.value)[:80] if defs else "?"}',
+                      'the renumbering flag does not compare both old/new parameters and old/new random variables, or is '
+                      'computed after old_parameters/old_random_variables were replaced by the new ones (always False)',
+                      line=defs[0].line if defs else us.node.lineno,
+                      witness='remove an unused eta: ETA(n) in unchanged statements is stale')
